@@ -3,6 +3,7 @@ Handlers for the divergences (C06): the generic definitions of Core/Diverge eval
 `Float`, the companion matrix / characteristic polynomial of maximum correlation in `Rat`.
 -/
 import DitModel.Core.Diverge
+import DitModel.Core.FDiv
 import DitModel.Core.Diverge2
 import DitModel.Drv.Info
 namespace Dit.Drv
@@ -37,6 +38,22 @@ def hDivF : J → Option J
       | "tsallis" => pure (floatJ (tsallisDiv floatR a pq))
       | "alpha" => pure (floatJ (alphaDiv floatR 2 4 a pq))
       | _ => none
+  | _ => none
+
+/-- `fdivf [name, pairs]`: the textbook f-divergence (`Core/FDiv.lean`) over pairs aligned on the UNION of the
+supports, for the menu of convex functions the harness uses; `null` = `+∞`. -/
+def hFDivF : J → Option J
+  | .arr [.str name, pq] => do
+      let pq ← J.toFPairs? pq
+      let absF : Float → Float := fun t => if t < 0 then -t else t
+      let r ← match name with
+        | "kl" => some (fdivVals (fun t => if t == 0 then 0 else t * Float.log2 t) none pq)
+        | "rkl" => some (fdivVals (fun t => -(Float.log2 t)) (some 0) pq)
+        | "tv" => some (fdivVals (fun t => absF (t - 1) / 2) (some 0.5) pq)
+        | "chi2" => some (fdivVals (fun t => (t - 1) * (t - 1)) none pq)
+        | "hel" => some (fdivVals (fun t => (Float.sqrt t - 1) * (Float.sqrt t - 1)) (some 1) pq)
+        | _ => none
+      pure (optFloatJ r)
   | _ => none
 
 /-- `jsdf [pmfs, w]` -/
@@ -82,6 +99,6 @@ def hLautumF : J → Option J
   | _ => none
 
 def divergeHandlers : List (String × (J → Option J)) :=
-  [("divf", hDivF), ("jsdf", hJsdF), ("align", hAlign), ("maxcorr", hMaxcorr), ("chernf", hChernF), ("lautumf", hLautumF)]
+  [("divf", hDivF), ("fdivf", hFDivF), ("jsdf", hJsdF), ("align", hAlign), ("maxcorr", hMaxcorr), ("chernf", hChernF), ("lautumf", hLautumF)]
 
 end Dit.Drv
